@@ -82,24 +82,37 @@ PyObject *CPyDict_SetDefaultWithNone(PyObject *dict, PyObject *key) {
     return CPyDict_SetDefault(dict, key, Py_None);
 }
 
+static PyObject *CPyDict_NewEmptyDatatype(int data_type) {
+    if (data_type == 1) {
+        return PyList_New(0);
+    } else if (data_type == 2) {
+        return PyDict_New();
+    } else if (data_type == 3) {
+        return PySet_New(NULL);
+    }
+    return NULL;
+}
+
 PyObject *CPyDict_SetDefaultWithEmptyDatatype(PyObject *dict, PyObject *key,
                                               int data_type) {
+    if (!PyDict_CheckExact(dict)) {
+        // A subclass may define __missing__ (defaultdict) or override setdefault:
+        // only its own setdefault() has the right semantics.
+        PyObject *default_obj = CPyDict_NewEmptyDatatype(data_type);
+        if (default_obj == NULL) {
+            return NULL;
+        }
+        PyObject *ret = CPyDict_SetDefault(dict, key, default_obj);
+        Py_DECREF(default_obj);
+        return ret;
+    }
     PyObject *res = CPyDict_GetItem(dict, key);
     if (!res) {
         // CPyDict_GetItem() would generates a PyExc_KeyError
         // when key is not found.
         PyErr_Clear();
 
-        PyObject *new_obj;
-        if (data_type == 1) {
-            new_obj = PyList_New(0);
-        } else if (data_type == 2) {
-            new_obj = PyDict_New();
-        } else if (data_type == 3) {
-            new_obj = PySet_New(NULL);
-        } else {
-            new_obj = NULL;
-        }
+        PyObject *new_obj = CPyDict_NewEmptyDatatype(data_type);
 
         if (new_obj == NULL) {
             res = NULL;
